@@ -29,7 +29,7 @@ def _smt2(hyps, neg):
 class Ob:
     """one proof obligation:  hyps => goal   (query: hyps ∧ ¬goal must be unsat)"""
     __slots__ = ('name', 'hyps', 'goal', 'neg', 'neg_margin', 'kind', 'timeout', 'replay', 'fut', 'fut2', 'res',
-                 'status', 'detail', 'key', 'group', 'sample', 'tfvar', 't_submit')
+                 'status', 'detail', 'key', 'group', 'sample', 'tfvar', 't_submit', 'deps')
 
     def __init__(self, name, hyps, goal, kind='prove', timeout=20, replay=None, neg_margin=None, key=None,
                  group=None, tfvar=None):
@@ -42,6 +42,7 @@ class Ob:
         self.key = key or name
         self.group = group
         self.tfvar = tfvar
+        self.deps = []
 
 
 class Harness:
@@ -90,9 +91,12 @@ class Harness:
 
     # ------------------------------------------------------------------ obligations
     def prove(self, name, hyps, goal, timeout=None, replay=None, neg_margin=None, key=None, group=None,
-              tfvar=None, strategies=('default', 'old', 'nlsat')):
+              tfvar=None, strategies=('default', 'old', 'nlsat'), depends=()):
+        """depends: lemma obligations whose statements were added to hyps; this obligation only counts as discharged
+        if every one of them was itself discharged in this run"""
         timeout = timeout or (15 if self.quick else 60)
         ob = Ob(name, hyps, goal, 'prove', timeout, replay, neg_margin, key, group, tfvar)
+        ob.deps = list(depends)
         goal_s = z3.simplify(goal)
         if z3.is_true(goal_s):
             ob.status, ob.detail = 'unsat', 'syntactic'
@@ -236,6 +240,14 @@ class Harness:
             ob.status = r
             if r == 'sat':
                 self._handle_sat(ob)
+
+    def _apply_deps(self):
+        for ob in self.obs:
+            if ob.deps and ob.status == 'unsat':
+                bad = [d.name for d in ob.deps if d.status != 'unsat']
+                if bad:
+                    ob.status = 'unknown'
+                    ob.detail = 'conditional on lemma(s) not discharged in this run: %s' % bad[:3]
 
     def _handle_sat(self, ob):
         """candidate counterexample: replay on the real code; only reproducing ones are violations"""
